@@ -257,9 +257,9 @@ Definition kind_of_param (ms : mspec) (p : string) : option pkind :=
      alias names are non-empty and free of dots
    - every placeholder resolves to a plain (non-pointer) scalar parameter, and a placeholder that
      is nobody's alias is not itself renamed by the alias directive
-   - at most one context, one struct, one map parameter; the map is not behind a pointer
-     (open finding K_rest_ptr_map); a body verb has its struct parameter (open finding
-     K_rest_body_no_struct)
+   - at most one context, one struct, one map parameter (a second struct or a second query map
+     is refused by the generator with a diagnostic); the map is not behind a pointer (open
+     finding K_rest_ptr_map); a body verb has its struct parameter (refused otherwise)
    - field names (and the Go expressions reading them) are distinct and every field has a non-empty
      query name *)
 Definition wf_tok (t : ptok) : bool :=
